@@ -166,12 +166,12 @@ Definition smem (i : nat) (l : list nat) : bool := existsb (Nat.eqb i) l.
 (* silent: coefficient sources that are not logging generators (a raw itertools object
    inside the Stream): their reads are not events of the observed trace; the values
    used and the end of the output still speak for them *)
-Fixpoint trace_ok (S : sources) (e : fexp) (zero : Qc) (silent : list nat) (fuel n : nat) (xh yh : list Qc)
+Fixpoint trace_ok (S : sources) (fz : nat -> bres (@gfilt scoef)) (zero : Qc) (silent : list nat) (fuel n : nat) (xh yh : list Qc)
                   (tr : list event) : bool :=
   match fuel with
   | O => is_nil tr                               (* nobody asks: nothing happens *)
   | Datatypes.S fuel' =>
-      match frozen_at S e n with
+      match fz n with
       | BErr _ => true
       | BOk F _ =>
           let srcs := 0%nat :: fdeps F in
@@ -185,7 +185,7 @@ Fixpoint trace_ok (S : sources) (e : fexp) (zero : Qc) (silent : list nat) (fuel
                 let x := snapshot S n 0 in
                 subset logged (map fst rs) &&
                 match equation F x xh yh zero y with
-                | Some ok => ok && trace_ok S e zero silent fuel' (Datatypes.S n) (x :: xh) (y :: yh) rest'
+                | Some ok => ok && trace_ok S fz zero silent fuel' (Datatypes.S n) (x :: xh) (y :: yh) rest'
                 | None => true                   (* a zero or undefined gain: no claim *)
                 end
             | [EvRaise XZeroDiv] => silent_at S n F     (* division by a zero gain: no claim *)
@@ -216,19 +216,23 @@ Definition spec_run (S : sources) (e : fexp) (mem : memarg) (zero : Qc) (silent 
   | BErr _ => true
   | BOk F _ =>
       noncausal F || match a0_of F with Some a0 => is_nil (sc_deps (t_getitem frozen_alg (t_den F) 0)) && Qc_eqb a0 0 | None => false end ||
-      trace_ok S e zero silent limit 0 [] (normalise_memory (tdense_len (t_den F) - 1) zero mem) tr
+      trace_ok S (frozen_at S e) zero silent limit 0 [] (normalise_memory (tdense_len (t_den F) - 1) zero mem) tr
   end.
 
 (* a call that starts when every source has already delivered n items (an earlier call of
    the same filter object consumed them): the same demands, from the instant n on *)
-Definition spec_run_at (S : sources) (e : fexp) (mem : memarg) (zero : Qc) (silent : list nat) (limit n : nat)
-                       (tr : list event) : bool :=
-  match frozen_at S e n with
+(* fz n: the filter frozen at the instant n (frozen_at S e for an expression e; for a power
+   or an operator with the same filter object on both sides, the frozen arithmetic on it) *)
+Definition spec_run_fz (S : sources) (fz : nat -> bres (@gfilt scoef)) (mem : memarg) (zero : Qc)
+                       (silent : list nat) (limit n : nat) (tr : list event) : bool :=
+  match fz n with
   | BErr _ => true
   | BOk F _ =>
       noncausal F || match a0_of F with Some a0 => is_nil (sc_deps (t_getitem frozen_alg (t_den F) 0)) && Qc_eqb a0 0 | None => false end ||
-      trace_ok S e zero silent limit n [] (normalise_memory (tdense_len (t_den F) - 1) zero mem) tr
+      trace_ok S fz zero silent limit n [] (normalise_memory (tdense_len (t_den F) - 1) zero mem) tr
   end.
+Definition spec_run_at (S : sources) (e : fexp) (mem : memarg) (zero : Qc) (silent : list nat) (limit n : nat)
+                       (tr : list event) : bool := spec_run_fz S (frozen_at S e) mem zero silent limit n tr.
 
 (* the shape of a filter: its powers and which coefficients are Streams *)
 Definition shape_of (d : list (Z * scoef)) : list (Z * bool) :=
